@@ -207,10 +207,29 @@ class SnapshotManager:
 
     def get_snapshot_by_timestamp(self, timestamp_ms: int) -> Optional[Snapshot]:
         """Get the most recent snapshot before or at the given timestamp"""
-        snapshots = self.get_all_snapshots()
+        metadata = self.metadata_manager.refresh()
+        if metadata is None:
+            return None
+        snapshots = metadata.snapshots
 
-        # Find the most recent snapshot at or before the timestamp
+        # "Most recent" means most recently COMMITTED: walk the snapshot log
+        # (commit order) and keep the last retained snapshot that is not newer
+        # than the requested time. Sorting by timestamp instead returns an older
+        # commit whenever the wall clock stepped back between two commits.
+        by_id = {s.snapshot_id: s for s in snapshots}
         target_snapshot = None
+        logged = set()
+        for entry in metadata.snapshot_log:
+            snapshot = by_id.get(entry.snapshot_id)
+            if snapshot is None:
+                continue
+            logged.add(snapshot.snapshot_id)
+            if snapshot.timestamp_ms <= timestamp_ms:
+                target_snapshot = snapshot
+        if target_snapshot is not None or len(logged) == len(by_id):
+            return target_snapshot
+
+        # Snapshots without a log entry (legacy metadata): timestamp order.
         for snapshot in sorted(snapshots, key=lambda s: s.timestamp_ms):
             if snapshot.timestamp_ms <= timestamp_ms:
                 target_snapshot = snapshot
